@@ -90,13 +90,42 @@ pub fn run(tape: &[u8], cx: &Cx) -> Outcome {
         let n = t.choose(max + 1);
         (0..n).map(|_| alpha[t.weighted(&[12, 10, 6, 2, 2, 2, 2, 1])]).collect()
     };
-    let s = gen_str(&mut t, 12);
+    let mut s = gen_str(&mut t, 12);
+    // an eighth of the cases: a long subject made of a repeated short block with a few perturbations
+    // (search loops that skip ahead, block-wise comparisons, lengths beyond 255)
+    let long_mode = t.bool_p(32);
+    if long_mode {
+        let block = {
+            let b = gen_str(&mut t, 3);
+            if b.is_empty() {
+                vec![0x61]
+            } else {
+                b
+            }
+        };
+        let target = 40 + t.choose(300);
+        s = Vec::with_capacity(target + 4);
+        while s.len() < target {
+            s.extend(&block);
+        }
+        for _ in 0..t.choose(4) {
+            let k = t.choose(s.len());
+            s[k] = alpha[t.choose(3)];
+        }
+    }
     // pattern: a substring of s, an overlapping repetition, or independent
     let p: Vec<u32> = match t.weighted(&[4, 3, 2]) {
         0 if !s.is_empty() => {
             let i = t.choose(s.len());
-            let l = t.choose(s.len() - i + 1).min(4);
-            s[i..i + l].to_vec()
+            let cap = if long_mode { 40 } else { 4 };
+            let l = t.choose(s.len() - i + 1).min(cap);
+            let mut p = s[i..i + l].to_vec();
+            // sometimes one character off (a near miss that shares a long prefix with a real occurrence)
+            if long_mode && !p.is_empty() && t.bool_p(80) {
+                let k = t.choose(p.len());
+                p[k] = alpha[t.choose(3)];
+            }
+            p
         }
         1 => gen_str(&mut t, 3),
         _ => {
@@ -137,6 +166,9 @@ pub fn run(tape: &[u8], cx: &Cx) -> Outcome {
     }
     if p.is_empty() {
         o.tag("empty-pattern");
+    }
+    if long_mode {
+        o.tag("long-subject");
     }
     if r7::replace_all(&s, &p, &u) != r7::replace(&s, &p, &u) {
         o.tag(">=2-occurrences");
